@@ -359,6 +359,19 @@ func checkC17(c *Ctx) {
 					continue
 				}
 				n++
+				// the state that is inspected must be the state *after* the upgrade:
+				// what arrives in plaintext between the greeting and the tagged OK
+				// of STARTTLS (an injected [CLOSED], a second greeting) must not
+				// survive the check
+				stateAfter := false
+				allInstrs(ns, func(j ssa.Instruction) {
+					if call, ok := j.(*ssa.Call); ok && callKey(call) == "(*Client).State" {
+						if f2, ok := gf.at(call); ok && f2.has("ok:(*Client).startTLS") {
+							stateAfter = true
+						}
+					}
+				})
+				c.check(stateAfter, "C17.d", name+": state inspected after the upgrade", ret.Pos(), "State() is called on the success edge of startTLS", name+" checks the client's state before the STARTTLS exchange: plaintext injected between the greeting and the tagged OK can still leave the upgraded client authenticated")
 				c.check(fs.has("cmp:(*Client).State==1") && fs.has("ok:(*Client).startTLS"), "C17.d", name+": client returned only when NotAuthenticated", ret.Pos(),
 					"a client is returned only after startTLS succeeded and State() == NotAuthenticated", name+" hands out a client whose greeting was PREAUTH (authentication happened before TLS) or whose upgrade failed")
 			}
@@ -375,6 +388,8 @@ func checkC17(c *Ctx) {
 	// ---- (e) ---------------------------------------------------------------
 	ruleOfferPredicates(c, "C17.e")
 	ruleGreetingAfterStateInit(c, "C17.e")
+	c.rule("C17.f", "capabilities learnt in plaintext are discarded by a successful STARTTLS", 2)
+	ruleCapsInvalidation(c, "C17.f", []string{"startTLSCommand"})
 	c.checkCanAuthAs("C17.e")
 	ruleCredentialsGated(c, "C17.e")
 }
